@@ -197,6 +197,49 @@ def moduleOf (j : Json) : Except String Cminx.Module := do
   pure { bom := getBoolD j "bom" false, modDoc := ← docOf ((j.getObjVal? "moddoc").toOption.getD Json.null),
          items := ← (← (← j.getObjVal? "items").getArr?).toList.mapM itemOf, tail := ← sepOf (← j.getObjVal? "tail") }
 
+
+partial def fsNodeOf (j : Json) : Except String FsNode := do
+  let name ← getStr j "name"
+  match j.getObjVal? "children" with
+  | .ok ch => pure (.dir name (← (← ch.getArr?).toList.mapM fsNodeOf))
+  | .error _ => pure (.file name (← getStr j "content"))
+
+def optStrOf (j : Json) (k : String) : Option Str :=
+  match j.getObjVal? k with
+  | .ok v => (match v.getStr? with | .ok s => some s.toList | .error _ => none)
+  | .error _ => none
+
+def walkCfgOf (j : Json) : Except String WalkCfg := do
+  pure { recursive := getBoolD j "recursive" false, autoExclude := getBoolD j "auto_exclude" true,
+         pfx := optStrOf j "prefix", sep := getStrD j "sep" ['.'], extTitles := getBoolD j "ext_titles" false,
+         extModules := getBoolD j "ext_modules" false, headers := ← getStrList j "headers",
+         toStdout := getBoolD j "stdout" false,
+         agg := parseCfg (match j.getObjVal? "cfg" with | .ok v => v | .error _ => Json.mkObj []) }
+
+/-- excluded paths as `[[comp, …, isDir], …]`, is-dir encoded as last element "d"/"f" -/
+def exclOf (j : Json) : Except String (List Str → Bool → Bool) := do
+  let arr ← j.getArr?
+  let entries ← arr.toList.mapM (fun e => do
+    let a ← e.getArr?
+    let comps ← a.toList.mapM strOf
+    pure comps)
+  pure (fun p isDir => entries.contains (p ++ [if isDir then ['d'] else ['f']]))
+
+def mainInputOf (j : Json) : Except String MainInput := do
+  let kind ← (← j.getObjVal? "kind").getStr?
+  let name ← getStr j "name"
+  let inp ← match kind with
+    | "missing" => pure (Input.missing name)
+    | "file" => pure (Input.file name (← getStr j "content"))
+    | "dir" => pure (Input.dir name (← (← (← j.getObjVal? "children").getArr?).toList.mapM fsNodeOf))
+    | k => throw s!"bad input kind {k}"
+  pure { inp, excl := ← exclOf ((j.getObjVal? "excluded").toOption.getD (Json.arr #[])), exclRoot := getBoolD j "excl_root" false }
+
+def statusJson : Status → Json
+  | .ok => "ok"
+  | .exitMinus1 => "exit-1"
+  | .raised e => errJson e
+
 def handle (j : Json) : Except String Json := do
   let op ← getStr j "op"
   match String.ofList op with
@@ -253,6 +296,12 @@ def handle (j : Json) : Except String Json := do
         | none => Json.mkObj [("err", "parse")]
         | some evs => Json.mkObj [("same", (evs.map eventJson).toArray == (m.events.map eventJson).toArray)]
     pure (Json.mkObj [("src", S src), ("roundtrip", rt)])
+  | "tree" =>
+    let c ← walkCfgOf (← j.getObjVal? "settings")
+    let inputs ← (← (← j.getObjVal? "inputs").getArr?).toList.mapM mainInputOf
+    let (r, st) := runMain c inputs {}
+    pure (Json.mkObj [("writes", Json.arr (r.writes.map (fun w => Json.mkObj [("path", SL w.path), ("content", S w.content)])).toArray),
+      ("stdout", S r.stdout), ("status", statusJson st)])
   | "rstops" =>
     let hc ← getStr j "hc"
     let title ← getStr j "title"
